@@ -131,6 +131,10 @@ def judge(r, what, violations):
     if r.get("threads_after_grace", 0) > 0:
         bad.append(f"{r['threads_after_grace']} thread(s) "
                    f"{r.get('thread_names')} alive after the grace period")
+    if r.get("bytes_by_inflight_callback_after_return", 0) > 0:
+        bad.append(f"{r['bytes_by_inflight_callback_after_return']} bytes "
+                   f"written to the output stream after the call ended (by "
+                   f"a timer callback still in flight)")
     if r.get("bytes_after_return", 0) > 0:
         bad.append(f"{r['bytes_after_return']} bytes written to the output "
                    f"stream after the call ended")
